@@ -6,7 +6,9 @@
    operators only (they are false of the Dropped variant: Findings/C14_quat.v). *)
 From Coq Require Import Reals ZArith List Permutation.
 From PV Require Import Num NumR Model_mindex Proofs_mindex Proofs_mindex_mass
-  Proofs_mindex_single Proofs_mindex_single_thm Proofs_mindex_batched.
+  Proofs_mindex_single Proofs_mindex_single_thm Proofs_mindex_batched Proofs_mindex_hist Inst_mindex
+  Inst_mindex_random Inst_mindex_index Proofs_mindex_gen.
+From PV.gen Require Import Gen_mindex.
 Import ListNotations.
 Open Scope R_scope.
 
@@ -170,3 +172,216 @@ Example C14_single_nonvacuous :
   good_mass Orthorhombic /\ (2 <= length [[1; 0; 0; 0; 1; 0; 0; 0; 1]; [1; 0; 0; 0; 1; 0; 0; 0; 1]])%nat /\
   qnorm2 (0, 0, 0, 1) = 1.
 Proof. exact single_nonvacuous. Qed.
+
+(* ---- the binning of the observed angles: np.histogram(bins = n, range = (0, n)), last bin CLOSED ---- *)
+(* the maximal admissible angle n is counted, in the last bin; every angle of [0, n] lies in exactly one bin *)
+Theorem C14_hist_last_bin_closed : forall n, (0 < n)%nat ->
+  @in_bin NumR n (n - 1) (edgeR n) = true /\
+  forall x, 0 <= x <= edgeR n ->
+    exists k, (k < n)%nat /\ @in_bin NumR n k x = true /\
+              forall k', (k' < n)%nat -> @in_bin NumR n k' x = true -> k' = k.
+Proof. exact (fun n Hn => conj (in_bin_last n Hn) (fun x Hx => every_angle_has_one_bin n x Hn Hx)). Qed.
+
+(* the counts add up to the number of angles in [0, n]: each is counted exactly once, the others never *)
+Theorem C14_hist_counts_every_angle_once : forall n (xs : list R), (0 < n)%nat ->
+  zsum (@hist_counts NumR n xs) = Z.of_nat (length (filter (in_range n) xs)) /\
+  (Forall (fun x => 0 <= x <= edgeR n) xs -> zsum (@hist_counts NumR n xs) = Z.of_nat (length xs)).
+Proof. exact (fun n xs Hn => conj (hist_counts_total n xs Hn) (hist_counts_all_in_range n xs Hn)). Qed.
+
+(* one angle in [0, n] (n itself included) is enough: the observed density is non-negative with mass 1 *)
+Theorem C14_hist_density_mass_one : forall n (xs : list R), (0 < n)%nat ->
+  (exists x, In x xs /\ 0 <= x <= edgeR n) ->
+  Forall (Rle 0) (@hist_density NumR n xs) /\ rsum (@hist_density NumR n xs) = 1 /\
+  length (@hist_density NumR n xs) = n.
+Proof. exact hist_density_mass_one. Qed.
+
+(* no angle in [0, n]: all counts are 0 -- np.histogram(density=True) then divides 0 by 0 (known finding) *)
+Theorem C14_hist_counts_empty : forall n (xs : list R), (0 < n)%nat ->
+  Forall (fun x => in_range n x = false) xs -> zsum (@hist_counts NumR n xs) = 0%Z.
+Proof. exact hist_counts_empty. Qed.
+
+Example C14_hist_nonvacuous :
+  (0 < 180)%nat /\ (exists x, In x [edgeR 180] /\ 0 <= x <= edgeR 180) /\ in_range 90 (IZR 110) = false.
+Proof.
+  exact (conj (Nat.lt_0_succ 179)
+        (conj (ex_intro _ (edgeR 180) (conj (or_introl eq_refl) (conj (edgeR_nonneg 180) (Rle_refl _))))
+              hist_nonvacuous_out)).
+Qed.
+
+(* ---- tie T: the definitions regenerated from the source coincide with the model (all inputs) ---- *)
+(* utils.quat_product as generated is the Dropped product ... *)
+Theorem C14_gen_quat_product_is_dropped : forall q1 q2 : arr R,
+  @k_quat_product NumR q1 q2 = mk_arr 0 (lq (@qprod NumR Dropped (qat q1 0) (qat q2 0))).
+Proof. exact quat_product_inst. Qed.
+
+(* ... and not the quaternion product: (1,0,0,0) (x) (0,1,0,0) is 0 instead of (0,0,1,0) *)
+Theorem C14_gen_quat_product_refuted :
+  (forall k, (k < 4)%nat -> @k_quat_product NumR (mk_arr 0 [1; 0; 0; 0]) (mk_arr 0 [0; 1; 0; 0]) k = 0) /\
+  hmul (1, 0, 0, 0) (0, 1, 0, 0) = (0, 0, 1, 0).
+Proof. exact gen_quat_product_refuted. Qed.
+
+(* LatticeSystem.value and stats._max_misorientation, member by member; np.histogram's parameters *)
+Theorem C14_gen_lattice_table :
+  (length g_lattice_table = 6%nat /\
+   forall c s, lattice_of_code c = Some s ->
+     nth (Z.to_nat c) g_lattice_table (0, 0, 0)%Z = (fst (lattice_MN s), snd (lattice_MN s), Z.of_nat (theta_max s))) /\
+  (length g_hist_params = 6%nat /\
+   forall c s, lattice_of_code c = Some s ->
+     nth (Z.to_nat c) g_hist_params (0, 0, 0)%Z = (Z.of_nat (theta_max s), 0%Z, Z.of_nat (theta_max s))).
+Proof. exact (conj lattice_table_inst hist_params_inst). Qed.
+
+(* geometry.symmetry_operations evaluated for every member = the model's operator lists *)
+Theorem C14_gen_symmetry_operations :
+  [op4 (@k_symmetry_operations_triclinic NumR)] = @symmetry_operations NumR Triclinic /\
+  (let '(o0, o1, o2, o3, o4, o5, o6) := @k_symmetry_operations_monoclinic NumR in
+   [op4 o0; op4 o1; op4 o2; op4 o3; op16 o4; op16 o5; op16 o6] = @symmetry_operations NumR Monoclinic
+   /\ diag16 o4 /\ diag16 o5 /\ diag16 o6) /\
+  (let '(o0, o1, o2, o3, o4, o5, o6) := @k_symmetry_operations_orthorhombic NumR in
+   [op4 o0; op4 o1; op4 o2; op4 o3; op16 o4; op16 o5; op16 o6] = @symmetry_operations NumR Orthorhombic
+   /\ diag16 o4 /\ diag16 o5 /\ diag16 o6) /\
+  (let '(o0, o1, o2, o3, o4, o5, o6) := @k_symmetry_operations_rhombohedral NumR in
+   [op4 o0; op4 o1; op4 o2; op4 o3; op4 o4; op4 o5; op4 o6] = @symmetry_operations NumR Rhombohedral) /\
+  (let '(o0, o1, o2, o3, o4, o5, o6, o7, o8, o9) := @k_symmetry_operations_tetragonal NumR in
+   [op4 o0; op4 o1; op4 o2; op4 o3; op4 o4; op4 o5; op4 o6; op4 o7; op4 o8; op4 o9]
+   = @symmetry_operations NumR Tetragonal) /\
+  (let '(o0, o1, o2, o3, o4, o5, o6, o7, o8, o9, o10, o11, o12, o13, o14, o15) :=
+     @k_symmetry_operations_hexagonal NumR in
+   [op4 o0; op4 o1; op4 o2; op4 o3; op4 o4; op4 o5; op4 o6; op4 o7; op4 o8; op4 o9; op4 o10; op4 o11;
+    op4 o12; op4 o13; op4 o14; op4 o15] = @symmetry_operations NumR Hexagonal).
+Proof.
+  exact (conj symops_inst_triclinic (conj symops_inst_monoclinic (conj symops_inst_orthorhombic
+        (conj symops_inst_rhombohedral (conj symops_inst_tetragonal symops_inst_hexagonal))))).
+Qed.
+
+(* geometry.misorientation_angles: one minimum of ang1 over all operator pairs per row (the sizes
+   misorientation_hist uses for 2 and 3 grains, and small generic ones) *)
+Theorem C14_gen_misorientation_angles : forall q1 q2 : arr R,
+  @k_misorientation_angles_n1_a2_b3 NumR q1 q2 = mk_arr 0 (misangles (@ang1 NumR) 1 2 3 q1 q2) /\
+  @k_misorientation_angles_n2_a2_b2 NumR q1 q2 = mk_arr 0 (misangles (@ang1 NumR) 2 2 2 q1 q2) /\
+  @k_misorientation_angles_n1_a7_b7 NumR q1 q2 = mk_arr 0 (misangles (@ang1 NumR) 1 7 7 q1 q2) /\
+  @k_misorientation_angles_n3_a7_b7 NumR q1 q2 = mk_arr 0 (misangles (@ang1 NumR) 3 7 7 q1 q2) /\
+  @k_misorientation_angles_n3_a10_b10 NumR q1 q2 = mk_arr 0 (misangles (@ang1 NumR) 3 10 10 q1 q2) /\
+  @k_misorientation_angles_n1_a16_b16 NumR q1 q2 = mk_arr 0 (misangles (@ang1 NumR) 1 16 16 q1 q2).
+Proof.
+  exact (fun q1 q2 => conj (misangles_inst_n1_a2_b3 q1 q2) (conj (misangles_inst_n2_a2_b2 q1 q2)
+        (conj (misangles_inst_n1_a7_b7 q1 q2) (conj (misangles_inst_n3_a7_b7 q1 q2)
+        (conj (misangles_inst_n3_a10_b10 q1 q2) (misangles_inst_n1_a16_b16 q1 q2)))))).
+Qed.
+
+(* stats.misorientation_hist up to np.histogram: what is binned ARE the model's pair angles (Dropped
+   product, the system's operator list, itertools.combinations order), for 2 and 3 grains *)
+Theorem C14_gen_hist_data : forall quats : arr R,
+  @k_misorientation_hist_data_triclinic_n3 NumR quats = mk_arr 0 (@angles NumR Dropped Triclinic [qat quats 0; qat quats 4; qat quats 8]) /\
+  @k_misorientation_hist_data_monoclinic_n3 NumR quats = mk_arr 0 (@angles NumR Dropped Monoclinic [qat quats 0; qat quats 4; qat quats 8]) /\
+  @k_misorientation_hist_data_orthorhombic_n2 NumR quats = mk_arr 0 (@angles NumR Dropped Orthorhombic [qat quats 0; qat quats 4]) /\
+  @k_misorientation_hist_data_orthorhombic_n3 NumR quats = mk_arr 0 (@angles NumR Dropped Orthorhombic [qat quats 0; qat quats 4; qat quats 8]) /\
+  @k_misorientation_hist_data_rhombohedral_n3 NumR quats = mk_arr 0 (@angles NumR Dropped Rhombohedral [qat quats 0; qat quats 4; qat quats 8]) /\
+  @k_misorientation_hist_data_tetragonal_n3 NumR quats = mk_arr 0 (@angles NumR Dropped Tetragonal [qat quats 0; qat quats 4; qat quats 8]) /\
+  @k_misorientation_hist_data_hexagonal_n2 NumR quats = mk_arr 0 (@angles NumR Dropped Hexagonal [qat quats 0; qat quats 4]).
+Proof.
+  exact (fun quats => conj (hist_data_inst_triclinic_n3 quats) (conj (hist_data_inst_monoclinic_n3 quats)
+        (conj (hist_data_inst_orthorhombic_n2 quats) (conj (hist_data_inst_orthorhombic_n3 quats)
+        (conj (hist_data_inst_rhombohedral_n3 quats) (conj (hist_data_inst_tetragonal_n3 quats)
+              (hist_data_inst_hexagonal_n2 quats))))))).
+Qed.
+
+(* diagnostics.misorientation_indices with a sequential pool: position k holds the value of snapshot k *)
+Theorem C14_gen_indices_positional : forall m : arr R,
+  (forall k, (k < 1)%nat -> @k_misorientation_indices_l1 NumR m k = m k /\ @k_misorientation_indices_pool_l1 NumR m k = m k) /\
+  (forall k, (k < 2)%nat -> @k_misorientation_indices_l2 NumR m k = m k /\ @k_misorientation_indices_pool_l2 NumR m k = m k) /\
+  (forall k, (k < 3)%nat -> @k_misorientation_indices_l3 NumR m k = m k /\ @k_misorientation_indices_pool_l3 NumR m k = m k).
+Proof. exact indices_inst. Qed.
+
+(* stats.misorientations_random as generated (symbolic bin edges: range check, four Grimmer branches per
+   edge, assert False) IS the model's density, for every lattice system and ALL low, high *)
+Theorem C14_gen_random_is_model : forall s (low high : R),
+  gen_random s low high = @misorientations_random NumR low high s.
+Proof. exact gen_random_inst. Qed.
+
+Theorem C14_gen_random_value_error : forall s (low high : R),
+  low < 0 \/ high < low \/ IZR (Z.of_nat (theta_max s)) < high -> gen_random s low high = Err ValueError.
+Proof. exact gen_random_value_error. Qed.
+
+(* diagnostics.misorientation_index as generated, given the histogram: the theta_max density calls in
+   source order (first error wins), then theta_max / (2 n_bins) * sum |theory - observed| *)
+Theorem C14_gen_index_is_model : forall s (obs : list R), length obs = theta_max s ->
+  gen_index s (mk_arr 0 obs) =
+  match @theory NumR s with Err e => Err e | Ok th => Ok (@m_of NumR (theta_max s) th obs) end.
+Proof. exact gen_index_inst. Qed.
+
+Theorem C14_gen_index_after_histogram : forall s (angs : list R),
+  gen_index s (mk_arr 0 (@hist_density NumR (theta_max s) angs)) = @mindex_of_angles NumR s angs.
+Proof. exact gen_index_hist. Qed.
+
+(* the mass theorem, now about generated code *)
+Theorem C14_gen_theory_mass : forall s, good_mass s ->
+  exists th, gen_theory s = Ok th /\ Forall (Rle 0) th /\ Rabs (rsum th - 1) <= 1 / 1000.
+Proof. exact gen_theory_mass. Qed.
+
+(* ANY normalised histogram against ANY non-negative density of mass 1: M in [0, 1] *)
+Theorem C14_mindex_unit_abstract : forall n (th obs : list R), (0 < n)%nat -> length obs = n ->
+  Forall (Rle 0) th -> Forall (Rle 0) obs -> rsum th = 1 -> rsum obs = 1 ->
+  0 <= @m_of NumR n th obs <= 1.
+Proof. exact mindex_unit_abstract. Qed.
+
+(* the generated index of ANY normalised histogram with theta_max bins *)
+Theorem C14_gen_index_range : forall s (obs th : list R) m,
+  length obs = theta_max s -> Forall (Rle 0) obs -> rsum obs = 1 ->
+  gen_theory s = Ok th -> Forall (Rle 0) th ->
+  gen_index s (mk_arr 0 obs) = Ok m ->
+  m = @m_of NumR (theta_max s) th obs /\ 0 <= m <= (1 + rsum th) / 2.
+Proof. exact gen_index_range. Qed.
+
+Theorem C14_gen_index_unit_interval : forall s (obs : list R) m, good_mass s ->
+  length obs = theta_max s -> Forall (Rle 0) obs -> rsum obs = 1 ->
+  gen_index s (mk_arr 0 obs) = Ok m -> 0 <= m <= 1 + 5 / 10000.
+Proof. exact gen_index_unit_interval. Qed.
+
+(* the generated pipeline for 2 / 3 grains (hist data -> np.histogram = hist_density -> generated index)
+   is the model's index of the oracle's quaternions with the Dropped product *)
+Theorem C14_gen_pipeline : forall quats : arr R,
+  gen_pipeline Triclinic 3 (@k_misorientation_hist_data_triclinic_n3 NumR quats) =
+    @mindex_quats NumR Dropped Triclinic [qat quats 0; qat quats 4; qat quats 8] /\
+  gen_pipeline Monoclinic 3 (@k_misorientation_hist_data_monoclinic_n3 NumR quats) =
+    @mindex_quats NumR Dropped Monoclinic [qat quats 0; qat quats 4; qat quats 8] /\
+  gen_pipeline Orthorhombic 3 (@k_misorientation_hist_data_orthorhombic_n3 NumR quats) =
+    @mindex_quats NumR Dropped Orthorhombic [qat quats 0; qat quats 4; qat quats 8] /\
+  gen_pipeline Rhombohedral 3 (@k_misorientation_hist_data_rhombohedral_n3 NumR quats) =
+    @mindex_quats NumR Dropped Rhombohedral [qat quats 0; qat quats 4; qat quats 8] /\
+  gen_pipeline Tetragonal 3 (@k_misorientation_hist_data_tetragonal_n3 NumR quats) =
+    @mindex_quats NumR Dropped Tetragonal [qat quats 0; qat quats 4; qat quats 8] /\
+  gen_pipeline Hexagonal 1 (@k_misorientation_hist_data_hexagonal_n2 NumR quats) =
+    @mindex_quats NumR Dropped Hexagonal [qat quats 0; qat quats 4].
+Proof.
+  exact (fun quats => conj (gen_pipeline_triclinic_n3 quats) (conj (gen_pipeline_monoclinic_n3 quats)
+        (conj (gen_pipeline_orthorhombic_n3 quats) (conj (gen_pipeline_rhombohedral_n3 quats)
+        (conj (gen_pipeline_tetragonal_n3 quats) (gen_pipeline_hexagonal_n2 quats)))))).
+Qed.
+
+(* what the product of the source does to norms: |p (x)_D q|^2 = |p|^2 |q|^2 - |v_p x v_q|^2 *)
+Theorem C14_dropped_norm_defect : forall p q : Q4,
+  qnorm2 (@qprod NumR Dropped p q) = qnorm2 p * qnorm2 q - cross2 p q.
+Proof. exact dropped_norm_defect. Qed.
+
+Theorem C14_gen_product_norm : forall q1 q2 : arr R,
+  qnorm2 (qat (@k_quat_product NumR q1 q2) 0) =
+  qnorm2 (qat q1 0) * qnorm2 (qat q2 0) - cross2 (qat q1 0) (qat q2 0).
+Proof. exact gen_product_norm. Qed.
+
+(* the operator lists: every rotation operator is a unit quaternion ... *)
+Theorem C14_symops_unit : forall s (q : Q4),
+  In (@Rot NumR q) (@symmetry_operations NumR s) -> qnorm2 q = 1.
+Proof. exact symops_unit. Qed.
+
+(* ... but their number is the order of the proper point group (Grimmer's b) for triclinic only ... *)
+Theorem C14_symops_order_refuted : forall s, s <> Triclinic ->
+  Z.of_nat (length (@symmetry_operations NumR s)) <> snd (lattice_MN s).
+Proof. exact symops_order_refuted. Qed.
+
+(* ... and the rhombohedral, tetragonal and hexagonal lists are not closed under the quaternion product
+   (not even up to sign): they are not groups *)
+Theorem C14_symops_not_closed :
+  not_closed (@symmetry_operations NumR Rhombohedral) /\
+  not_closed (@symmetry_operations NumR Tetragonal) /\
+  not_closed (@symmetry_operations NumR Hexagonal).
+Proof. exact (conj rhombohedral_not_closed (conj tetragonal_not_closed hexagonal_not_closed)). Qed.
